@@ -7,6 +7,7 @@
  * really benefit from it. We use the same overall framework.
  */
 
+#include <float.h>
 #include <stdio.h>
 #include <stdlib.h>
 #include <assert.h>
@@ -520,6 +521,9 @@ static void read_float_value(fb_parser_t *P, fb_token_t *t, fb_value_t *v, int s
         v->type = vt_invalid;
         /* The FB spec requires this, in line with the JSON format. */
         error_tok(P, t, "numeric values must start with a digit");
+    } else if (v->f > DBL_MAX) {
+        v->type = vt_invalid;
+        error_tok(P, t, "float value out of range");
     } else if (sign) {
         v->f = -v->f;
     }
